@@ -46,7 +46,7 @@ pub struct BankSpec {
 }
 
 pub fn gen_price(rng: &mut Rng) -> (i64, i32) {
-    let expo = *rng.pick(&[-8i32, -8, -6, -5, -9, -12, -2, 0, 1, -10]);
+    let expo = if rng.chance(3, 4) { *rng.pick(&[-8i32, -8, -6, -5, -9, -12, -2, 0, 1, -10]) } else { -(rng.below(24) as i32) + if rng.chance(1, 8) { 24 } else { 0 } };
     let p: i64 = match rng.below(8) {
         0 => 0,
         1 => 1,
@@ -74,7 +74,7 @@ pub fn build_world(rng: &mut Rng) -> (World, Pubkey, Vec<BankSpec>, Pubkey) {
     let mut specs = vec![];
     let spare_oracle = w.add_pyth_oracle(123_000_000, 1000, 123_000_000, 1000, -8, now);
     for _ in 0..nb {
-        let dec = *rng.pick(&[6u8, 9, 0, 2, 8, 5]);
+        let dec = if rng.chance(2, 3) { *rng.pick(&[6u8, 9, 0, 2, 8, 5]) } else { rng.below(24) as u8 };
         let mint = w.add_mint(TokenKind::Spl, dec);
         let mut cfg = bank_config_fixed(I80F48::from_bits(match rng.below(6) {
             0 => 0,
@@ -93,6 +93,9 @@ pub fn build_world(rng: &mut Rng) -> (World, Pubkey, Vec<BankSpec>, Pubkey) {
         cfg.liability_weight_init = I80F48::from_bits(l_init).into();
         cfg.liability_weight_maint = I80F48::from_bits(l_maint).into();
         cfg.risk_tier = if rng.chance(1, 5) { RiskTier::Isolated } else { RiskTier::Collateral };
+        // a sixth of the banks are Drift-backed: their balances are Drift's scaled balances, which always carry 9 decimals
+        // whatever the mint's decimals are (valuation AND the collateral-value cap must use 9)
+        let want_drift = rng.chance(1, 4);
         cfg.operational_state = if rng.chance(1, 6) { BankOperationalState::ReduceOnly } else { BankOperationalState::Operational };
         cfg.total_asset_value_init_limit = match rng.below(4) {
             0 => 1 + rng.below(1000),
@@ -182,6 +185,10 @@ pub fn build_world(rng: &mut Rng) -> (World, Pubkey, Vec<BankSpec>, Pubkey) {
             oracle_meta = Some(if spec.key_ok { oracle } else { spare_oracle });
             pyth = Some(spec);
         }
+        // (only fixed-price banks: a Drift bank with a live oracle also needs its spot-market account in the risk accounts)
+        if want_drift && pyth.is_none() {
+            cfg.asset_tag = marginfi_type_crate::constants::ASSET_TAG_DRIFT;
+        }
         let h = w.add_bank(group, mint, cfg);
         let mut b = w.bank(&h.bank);
         b.asset_share_value = I80F48::from_bits(ONE + match rng.below(3) { 0 => 0, 1 => rng.below(ONE as u64) as i128, _ => rng.below(1000) as i128 }).into();
@@ -240,7 +247,7 @@ pub fn describe(w: &World, acct: &Pubkey, specs: &[BankSpec]) -> String {
             bits(b.asset_share_value),
             bits(b.liability_share_value),
             bits(b.total_asset_shares),
-            b.mint_decimals,
+            if b.config.asset_tag == marginfi_type_crate::constants::ASSET_TAG_DRIFT { 9 } else { b.mint_decimals },
             bits(b.config.asset_weight_init),
             bits(b.config.asset_weight_maint),
             bits(b.config.liability_weight_init),
